@@ -42,7 +42,37 @@ def encode(v):
         return [encode(x) for x in v]
     if isinstance(v, dict):
         return {"__dict__": [[encode(k), encode(x)] for k, x in v.items()]}
+    import dataclasses
+
+    try:
+        import pandas as pd
+        from reamber.base.Series import Series as RSeries
+        from reamber.base.lists.TimedList import TimedList
+
+        if isinstance(v, RSeries):
+            return {"__item__": f"{type(v).__module__}:{type(v).__qualname__}", "data": encode({k: _py(x) for k, x in v.data.to_dict().items()})}
+        if isinstance(v, TimedList):
+            return {"__timedlist__": f"{type(v).__module__}:{type(v).__qualname__}", "records": encode([{k: _py(x) for k, x in r.items()} for r in v.df.to_dict("records")]),
+                    "index": [_py(i) for i in v.df.index.tolist()], "columns": list(v.df.columns)}
+    except ImportError:
+        pass
+    if dataclasses.is_dataclass(v) and not isinstance(v, type):
+        return {"__dataclass__": f"{type(v).__module__}:{type(v).__qualname__}", "fields": encode({f.name: getattr(v, f.name) for f in dataclasses.fields(v) if hasattr(v, f.name)})}
+    if hasattr(v, "item") and hasattr(v, "dtype"):
+        try:
+            return encode(v.item())
+        except Exception:
+            pass
     return {"__repr__": repr(v)[:2000]}
+
+
+def _py(x):
+    if hasattr(x, "item") and hasattr(x, "dtype"):
+        try:
+            return x.item()
+        except Exception:
+            return x
+    return x
 
 
 def decode(v):
@@ -59,12 +89,38 @@ def decode(v):
             return tuple(decode(x) for x in v["__tuple__"])
         if "__dict__" in v:
             return {decode(k): decode(x) for k, x in v["__dict__"]}
+        if "__item__" in v:
+            from .dsl import resolve
+
+            return resolve(v["__item__"])(**decode(v["data"]))
+        if "__timedlist__" in v:
+            import pandas as pd
+            from .dsl import resolve
+
+            cls = resolve(v["__timedlist__"])
+            recs = decode(v["records"])
+            if not recs:
+                return cls([])
+            df = pd.DataFrame(recs, index=v["index"])
+            return cls(df[v["columns"]])
+        if "__dataclass__" in v:
+            from .dsl import resolve
+
+            cls = resolve(v["__dataclass__"])
+            o = cls.__new__(cls)
+            for k, x in decode(v["fields"]).items():
+                object.__setattr__(o, k, x)
+            return o
         if "__repr__" in v:
             raise ValueError("argument is not reconstructible from the replay file: " + v["__repr__"])
     return v
 
 
 # --------------------------------------------------------------------------- results
+
+
+class _Stop(Exception):
+    pass
 
 
 class Obl:
@@ -264,6 +320,8 @@ class Prover:
                 for shape in _shape_product(c.args):
                     ur.shapes += 1
                     self._prove_shape(c, shape, ur)
+                    if len([o for o in ur.obls if o.status == "violated"]) >= 3:
+                        break
             self._native_side(c, ur)
         except Exception as ex:  # checker error, never a violation
             ur.errors.append("".join(traceback.format_exception(type(ex), ex, ex.__traceback__))[-1500:])
@@ -313,29 +371,44 @@ class Prover:
             except RecursionError:
                 return ("undecided", "recursion limit", None)
 
+        counter = [0]
+
+        def on_result(ctx, outcome):
+            pi = counter[0]
+            counter[0] += 1
+            self._process_path(c, ur, shape, shape_tag, contracts, pi, ctx, outcome)
+            if any(o.status == "violated" for o in ur.obls):
+                # a replayed counter-example settles the unit; do not enumerate the remaining paths
+                ctx.alternatives.clear()
+                raise _Stop()
+
         try:
-            results = E.explore(run_path)
+            E.explore(run_path, on_result=on_result, max_paths=c.max_paths, max_seconds=60 if self.tier == "quick" else 600)
+        except _Stop:
+            pass
         except E.Undecided as u:
             ur.undecided_reasons.append(f"{shape_tag}: {u}")
             o = Obl(f"{c.id}/exploration[{shape_tag}]", "exploration")
             o.status = "undecided"
             o.detail = str(u)
             ur.obls.append(o)
-            return
-        for pi, (ctx, (kind, val, vals)) in enumerate(results):
+
+    def _process_path(self, c, ur, shape, shape_tag, contracts, pi, ctx, outcome):
+        kind, val, vals = outcome
+        if True:
             ur.paths += 1
             ur.trusted_calls |= ctx.trusted_calls
             tag = f"[{shape_tag}]" if shape_tag else ""
             pid = f"p{pi}"
             if kind == "cut":
-                continue
+                return
             if kind == "undecided":
                 ur.undecided_reasons.append(f"{tag}{pid}: {val}")
                 o = Obl(f"{c.id}/subset{tag}/{pid}", "subset")
                 o.status = "undecided"
                 o.detail = val
                 ur.obls.append(o)
-                continue
+                return
             if not ur.reachable:
                 # cover: the precondition is satisfiable and this path is reachable
                 s = z3.Solver()
@@ -364,9 +437,9 @@ class Prover:
                         o.status = "undecided"
                         o.detail = f"spec evaluation: {u}"
                         ur.obls.append(o)
-                        continue
+                        return
                 self._discharge(c, ur, f"{c.id}/no_unexpected_{pr.exc_cls.__name__}{tag}/{pid}", "exceptional", ctx.pc, goal, shape, ctx, exc=pr)
-                continue
+                return
             # normal return: every ensures clause
             vals2 = dict(vals, result=val)
             for en, efn in c.ensures.items():
